@@ -12,8 +12,9 @@ from harness import common
 from pysym.proxies import mkbool
 
 PROPERTY = 'C03'
-NAMES = ['a', 'b', 'dflt', 'default']
-QUERIES = ['a', 'b', 'dflt', 'default', 'zzz']
+UNI = 'caf\u00e9:\U0001f600'      # a policy name beyond ASCII and the BMP
+NAMES = ['a', 'b', 'dflt', 'default', UNI]
+QUERIES = ['a', 'b', 'dflt', 'default', 'zzz', UNI]
 CONFIGS = ['unset', 'ctor-name', 'ctor-object', 'option-name', 'ctor-empty',
            'ctor-undefined-name', 'option-undefined-name',
            'ctor-name-option-other', 'option-empty', 'option-none',
@@ -39,6 +40,7 @@ def run_table(ctx, config, body):
     common.register_leaves()
     defined = {n: ctx.bool('def.' + n) for n in NAMES}
     rules = {}
+    texts = {}
     sem = {}
     for n in NAMES:
         if defined[n]:
@@ -54,6 +56,7 @@ def run_table(ctx, config, body):
                 text = 'sym:%s or sym:%s_y' % (n, n)
                 sem[n] = z3.Or(_leaf(n), _leaf(n + '_y'))
             rules[n] = _parser.parse_rule(text)
+            texts[n] = text
     ctor = None
     conf = common.new_conf()
     dname = 'default'           # the library default of policy_default_rule
@@ -85,8 +88,25 @@ def run_table(ctx, config, body):
     from oslo_policy import policy as _policy
     via = ctx.choice('via', ['ctor-rules', 'set_rules', 'set_rules-Rules',
                              'set_rules-Rules-other-default',
-                             'ctor-Rules-other-default'])
-    if via == 'ctor-rules':
+                             'ctor-Rules-other-default', 'file-yaml',
+                             'file-json'])
+    env = None
+    if via in ('file-yaml', 'file-json'):
+        # the rule set comes from a real UTF-8 policy file (no \\u escapes)
+        import json
+        import yaml
+        env = common.PolicyEnv()
+        fn = 'policy.' + str(via)[5:]
+        env.write(fn, None, raw='')
+        with open(env.path(fn), 'w', encoding='utf-8') as f:
+            f.write(json.dumps(texts, ensure_ascii=False) if via == 'file-json'
+                    else (yaml.safe_dump(texts, allow_unicode=True)
+                          if texts else ''))
+        conf.set_override('policy_dirs', [], group='oslo_policy')
+        enf = policy_mod().Enforcer(conf, policy_file=env.path(fn),
+                                    default_rule=ctor)
+        enf.suppress_deprecation_warnings = True
+    elif via == 'ctor-rules':
         enf = common.mk_enforcer(rules=dict(rules), default_rule=ctor,
                                  conf=conf)
     elif via == 'ctor-Rules-other-default':
@@ -125,6 +145,19 @@ def run_table(ctx, config, body):
     else:
         want = z3.BoolVal(False)
         ctx.cover('no-usable-default')
+    try:
+        _table_checks(ctx, enf, q, want, config, body, via, rules)
+    finally:
+        if env is not None:
+            env.close()
+
+
+def policy_mod():
+    from oslo_policy import policy
+    return policy
+
+
+def _table_checks(ctx, enf, q, want, config, body, via, rules):
     got = common.decision(ctx, enf, q, {})
     ctx.observe('row', [config, body, via, q, sorted(rules)])
     ctx.observe('got', got)
